@@ -57,7 +57,8 @@ Arguments Err {A} e.
 Inductive location :=
 | LCpu (c : option bset)     (* None: NULL cpuset pointer *)
 | LObj (o : obj)
-| LBad.                      (* any other .type value *)
+| LBad                       (* any other .type value *)
+| LObjNull.                  (* type OBJECT with a NULL object pointer *)
 
 (* struct hwloc_internal_location_s *)
 Inductive iloc := ICpu (c : bset) | IObj (ty gp : N).
@@ -68,6 +69,7 @@ Definition to_internal (l : location) : option iloc :=
   | LCpu (Some c) => if bs_is_empty c then None else Some (ICpu c)
   | LObj o => Some (IObj (o_type o) (o_gp o))
   | LBad => None
+  | LObjNull => None
   end.
 
 (* match_internal_location(query, stored) *)
@@ -464,6 +466,7 @@ Definition local_numanodes (s : mstate) (loc : option location) (flags max : N) 
     | Some (LCpu c) => go c
     | Some (LObj o) => go (Some (o_cpuset o))
     | Some LBad => Err EINVAL
+    | Some LObjNull => Err EUB      (* "while (!obj->cpuset)" on a NULL object *)
     end.
 
 (* ------------------------------------------------------------------ *)
@@ -577,7 +580,8 @@ Inductive op :=
 | ODefNodes (flags : N)
 | ORetopo (t' : topo)
 | ODup
-| OXml (t' : topo).
+| OXml (t' : topo)
+| ORegisterNull (flags : N).    (* hwloc_memattr_register with a NULL name *)
 
 Inductive out :=
 | RUnit (r : res unit)
@@ -610,6 +614,7 @@ Definition step (s : mstate) (o : op) : mstate * out :=
   | ORetopo t' => (retopo s t', RUnit (Ok tt))
   | ODup => (dup_switch s, RUnit (Ok tt))
   | OXml t' => (xml_switch s t', RUnit (Ok tt))
+  | ORegisterNull _ => (s, RNum (Err EINVAL))   (* flag checks and the NULL test all end in EINVAL *)
   end.
 
 Definition run (s : mstate) (ops : list op) : mstate := fold_left (fun s o => fst (step s o)) ops s.
